@@ -893,7 +893,24 @@ impl gen::CELVisitorCompat<'_> for Parser {
     fn visit_Bytes(&mut self, ctx: &BytesContext<'_>) -> Self::Return {
         let token = ctx.tok.as_deref().expect("Has to have bytes!");
         let string = ctx.get_text();
-        match parse::parse_bytes(&string[2..string.len() - 1]) {
+        // `b` or `B`, an optional raw marker, then one or three quote characters on either side
+        let text = &string[1..];
+        let (raw, text) = match text.strip_prefix(['r', 'R']) {
+            Some(text) => (true, text),
+            None => (false, text),
+        };
+        let quotes = if text.starts_with("\"\"\"") || text.starts_with("'''") {
+            3
+        } else {
+            1
+        };
+        let body = &text[quotes..text.len() - quotes];
+        let bytes = if raw {
+            Ok(body.as_bytes().to_vec())
+        } else {
+            parse::parse_bytes(body)
+        };
+        match bytes {
             Ok(bytes) => self
                 .helper
                 .next_expr(token, Expr::Literal(Val::Bytes(bytes))),
